@@ -41,6 +41,14 @@ EXTRA = [
     "SELECT a FROM t UNION /* u */ SELECT b FROM u",
     "SELECT f(a /* arg */, b) FROM t ORDER BY a /* o */ LIMIT 1 /* l */",
 ]
+# text that spans lines (string literal, quoted identifier, block comment) inside every construct whose body the pretty printer
+# wraps and indents: an indentation that reaches into the text changes the literal / the name
+_MULTI = ["'l1\nl2\n  l3'", '"c1\nc2"', "/* m1\nm2 */ a"]
+_WRAP = ["SELECT * FROM (SELECT {p} AS v FROM t) AS s", "WITH c AS (SELECT {p} AS v FROM t) SELECT * FROM c", "SELECT a FROM t WHERE EXISTS (SELECT {p} FROM u)",
+         "SELECT (SELECT {p} FROM u) AS v FROM t", "SELECT a FROM t WHERE a IN (SELECT {p} FROM u)", "SELECT * FROM (SELECT * FROM (SELECT {p} AS v FROM t) AS s1) AS s2",
+         "SELECT COALESCE(a, {p}, b) FROM t", "SELECT CASE WHEN a THEN {p} ELSE b END FROM t", "SELECT SUM(a) OVER (PARTITION BY {p} ORDER BY b) FROM t",
+         "INSERT INTO t SELECT {p} FROM u", "SELECT a FROM t WHERE (a = 1 OR b = {p}) AND c = 2", "SELECT a FROM t JOIN (SELECT {p} AS v FROM u) AS s ON t.a = s.v"]
+EXTRA += [w.format(p=p_) for w in _WRAP for p_ in _MULTI]
 
 
 def all_dialects():
